@@ -14,11 +14,11 @@ import (
 
 // Result of a reference evaluation.
 type Result struct {
-	Val    interface{}
-	Failed bool
-	Why    string
-	Alloc  int // number of collection elements created (arrays, maps, ranges, map/filter results)
-	Log    string
+	Val      interface{}
+	Failed   bool
+	Why      string
+	Alloc    int // number of collection elements created (arrays, maps, ranges, map/filter results)
+	Log      string
 	FailPath string // path ("." + child indices) of the node whose operation failed
 }
 
